@@ -538,3 +538,59 @@ func typeTableGrounds(pk *packages.Package) []Ground {
 	}
 	return out
 }
+
+// methodsTableGrounds (C10): the fast-path table returned by ProtoMethods leaves Merge, CheckInitialized and Equal
+// to protobuf-go's generic algorithms (which then run over the reflection methods proved under contract) and
+// advertises exactly the two capabilities the closures implement.
+func methodsTableGrounds(ms *MsgSchema) []Ground {
+	pkg := ms.Pkg
+	name := shortPkg(pkg.PkgPath) + "." + ms.Name + ".ProtoMethods"
+	fd := findMethod(pkg, "fastReflection_"+ms.Name, "ProtoMethods")
+	if fd == nil {
+		return []Ground{{Name: name + "/table", OK: false, Text: "ProtoMethods is generated"}}
+	}
+	var lits []*ast.CompositeLit
+	ast.Inspect(fd.Body, func(n ast.Node) bool {
+		if cl, ok := n.(*ast.CompositeLit); ok {
+			if t := pkg.TypesInfo.TypeOf(cl); t != nil && strings.HasSuffix(t.String(), "protoiface.Methods") {
+				lits = append(lits, cl)
+			}
+		}
+		return true
+	})
+	if len(lits) != 1 {
+		return []Ground{{Name: name + "/table", OK: false, Text: "ProtoMethods builds exactly one protoiface.Methods literal", Detail: fmt.Sprint(len(lits))}}
+	}
+	fields := map[string]ast.Expr{}
+	for _, e := range lits[0].Elts {
+		if kv, ok := e.(*ast.KeyValueExpr); ok {
+			if id, ok := kv.Key.(*ast.Ident); ok {
+				fields[id.Name] = kv.Value
+			}
+		}
+	}
+	isNil := func(k string) bool {
+		v, ok := fields[k]
+		if !ok {
+			return true
+		}
+		id, ok := v.(*ast.Ident)
+		return ok && id.Name == "nil"
+	}
+	var out []Ground
+	for _, k := range []string{"Merge", "CheckInitialized", "Equal"} {
+		out = append(out, Ground{Name: name + "/table[" + k + " left to the library]", OK: isNil(k), Text: "protoiface.Methods." + k + " is nil: proto." + k + " runs protobuf-go's generic algorithm over the reflection methods"})
+	}
+	for _, k := range []string{"Size", "Marshal", "Unmarshal"} {
+		v, ok := fields[k]
+		id, isId := v.(*ast.Ident)
+		out = append(out, Ground{Name: name + "/table[" + k + " is the closure under contract]", OK: ok && isId && id.Name == strings.ToLower(k), Text: "protoiface.Methods." + k + " is the " + strings.ToLower(k) + " closure proved under C01–C07"})
+	}
+	flags := ""
+	if v, ok := fields["Flags"]; ok {
+		flags = types.ExprString(v)
+	}
+	out = append(out, Ground{Name: name + "/table[flags]", OK: flags == "protoiface.SupportMarshalDeterministic | protoiface.SupportUnmarshalDiscardUnknown", Detail: flags,
+		Text: "the table advertises exactly SupportMarshalDeterministic | SupportUnmarshalDiscardUnknown"})
+	return out
+}
